@@ -210,7 +210,9 @@ def _on_alarm(signum, frame):
     raise _Watchdog()
 
 
-def _to_call_args(fname, args):
+def _to_call_args(fname, args, bufs=None):
+    """bufs: optional dict parameter-name -> caller-owned array; the value is written INTO that array (in place) and
+    the same array object is passed (a caller that keeps and overwrites its pose / point buffers between calls)"""
     spec = FUNCS[fname]
     call = []
     for kind, names in zip(spec["kinds"], spec["params"]):
@@ -219,7 +221,14 @@ def _to_call_args(fname, args):
             if role in _SCALAR_ROLES:
                 call.append(float(v))
             else:
-                call.append(np.ascontiguousarray(np.array(v, dtype=np.float64)))
+                a = np.ascontiguousarray(np.array(v, dtype=np.float64))
+                if bufs is not None:
+                    if name not in bufs or bufs[name].shape != a.shape:
+                        bufs[name] = a.copy()
+                    else:
+                        bufs[name][...] = a
+                    a = bufs[name]
+                call.append(a)
     return call
 
 
@@ -230,11 +239,12 @@ def _raw_repr(x):
         return repr(x)[:300]
 
 
-def call_impl(fname, args, timeout_s=5):
-    """Call distance3d.distance.<fname> on JSON args (fresh float64 C-contiguous copies) under a watchdog."""
+def call_impl(fname, args, timeout_s=5, bufs=None):
+    """Call distance3d.distance.<fname> on JSON args (fresh float64 C-contiguous copies, or the caller-owned buffers
+    `bufs` overwritten in place) under a watchdog."""
     import distance3d.distance as dd
     fn = getattr(dd, fname)
-    call = _to_call_args(fname, args)
+    call = _to_call_args(fname, args, bufs)
     old = signal.signal(signal.SIGALRM, _on_alarm)
     signal.setitimer(signal.ITIMER_REAL, timeout_s)
     try:
@@ -1142,8 +1152,8 @@ def gen_case(rng, fname, stream):
 
 
 # ============================================================================ one case
-def check_case(ctx, fname, args, stream, tag=None):
-    res = call_impl(fname, args)
+def check_case(ctx, fname, args, stream, tag=None, bufs=None):
+    res = call_impl(fname, args, bufs=bufs)
     probs = oracle(fname, args, res)
     ctx.count("search:" + stream + ":" + fname, key=(fname, repr(args)), nontrivial=bool(res.get("ok")),
               sample={"fn": fname, "stream": stream, "placement": tag, "args": args})
@@ -1947,6 +1957,16 @@ def search(ctx):
             for _ in range(n):
                 args, tag = gen_case_tagged(ctx.rng, fname, stream)
                 check_case(ctx, fname, args, stream, tag=tag)
+    # repeated calls through caller-owned buffers that are overwritten in place between calls (pose matrices,
+    # points, directions): the result must depend on the current CONTENT of the arrays, not on their identity
+    nseq = ctx.budget(6, 60) * boost
+    for fname in FUNCS:
+        for _ in range(nseq):
+            bufs = {}
+            stream = ctx.rng.choice(["L", "G"])
+            for _k in range(3):
+                args, tag = gen_case_tagged(ctx.rng, fname, stream)
+                check_case(ctx, fname, args, stream + "-reused-buffers", tag=(tag or "") + "/reused-buffers", bufs=bufs)
     ctx.extra["search_cases_per_function"] = per
     ctx.extra["search_streams"] = ["L", "G"]
 
